@@ -348,6 +348,7 @@ class Resolver:
             if name in func.params + func.kwonly or self.local_assignments(func, name) or self._is_loop_target(func, name):
                 # a value, not a global: is it a class/function alias?
                 vals = [v for v in self.local_assignments(func, name) if not isinstance(v, tuple)]
+                alias_targets, alias_all = [], bool(vals)
                 for v in vals:
                     g = p.resolve_name_expr(func.module, v) if isinstance(v, (ast.Name, ast.Attribute)) else None
                     if isinstance(g, ClassInfo):
@@ -356,11 +357,19 @@ class Resolver:
                         return Res('package', [g])
                     if isinstance(v, ast.Attribute):
                         # bound method alias: open_chunk_reader = self._os.open_file_chunk_reader
+                        # (several alternatives: submit = self._a if small else self._b  -> all of them)
                         fake = ast.Call(func=v, args=[], keywords=[])
                         ast.copy_location(fake, call)
+                        fake._parent = getattr(call, '_parent', None)
                         rr = self._resolve(fake, func, depth + 1)
-                        if rr.kind in ('package', 'client'):
+                        if rr.kind == 'client' and len(vals) == 1:
                             return rr
+                        if rr.kind == 'package':
+                            alias_targets += [t for t in rr.targets if t not in alias_targets]
+                            continue
+                    alias_all = False
+                if alias_targets and alias_all:
+                    return Res('package', alias_targets)
                 ts = [t for t in self.type_of(fx, func, depth + 1) if isinstance(t, ClassInfo)]
                 targets = []
                 for t in ts:
